@@ -75,6 +75,8 @@ struct Reply {
     mtype: u8,
     xid: u32,
     chaddr: [u8; 6],
+    /// option 61 (client identifier, echoed by RFC 6842 servers); says nothing about whom the message is for
+    client_id: Option<Vec<u8>>,
     yiaddr: [u8; 4],
     server_id: Option<[u8; 4]>,
     mask: Option<[u8; 4]>,
@@ -109,6 +111,9 @@ impl Reply {
         if !self.overrun_early {
             if let Some(s) = self.server_id {
                 m.opts.push((OPT_SERVER_ID, s.to_vec()));
+            }
+            if let Some(c) = &self.client_id {
+                m.opts.push((61, c.clone()));
             }
             if let Some(l) = self.lease {
                 m.opts.push((OPT_LEASE, l.to_be_bytes().to_vec()));
